@@ -78,17 +78,26 @@ def is_anchor(name):
 CLOSURE_CALLS = ("std::ops::Fn::call", "std::ops::FnMut::call_mut", "std::ops::FnOnce::call_once")
 
 
-def _renumber(x, loff, boff):
+import re as _re
+
+
+def _renumber(x, loff, boff, poff=0, lmap=None):
     """Deep copy of a JSON fragment with locals shifted by loff (block targets are handled by the
-    caller, on terminators only)."""
+    caller, on terminators only) and references to promoted constants shifted by poff."""
     if isinstance(x, dict):
+        if poff and isinstance(x.get("const"), str) and "promoted[" in x["const"]:
+            y = dict(x)
+            y["const"] = _re.sub(r"promoted\[(\d+)\]$", lambda m: "promoted[%d]" % (int(m.group(1)) + poff),
+                                 x["const"])
+            return y
         if "l" in x and "p" in x and isinstance(x["l"], int):
-            return {"l": x["l"] + loff, "p": [_renumber(e, loff, boff) for e in x["p"]]}
+            nl = lmap[x["l"]] if (lmap and x["l"] in lmap) else x["l"] + loff
+            return {"l": nl, "p": [_renumber(e, loff, boff, poff, lmap) for e in x["p"]]}
         if set(x.keys()) == {"idx"}:
-            return {"idx": x["idx"] + loff}
-        return {k: _renumber(v, loff, boff) for k, v in x.items()}
+            return {"idx": (lmap[x["idx"]] if (lmap and x["idx"] in lmap) else x["idx"] + loff)}
+        return {k: _renumber(v, loff, boff, poff, lmap) for k, v in x.items()}
     if isinstance(x, list):
-        return [_renumber(e, loff, boff) for e in x]
+        return [_renumber(e, loff, boff, poff, lmap) for e in x]
     return x
 
 
@@ -101,6 +110,22 @@ def _shift_term(t, boff):
         t["arms"] = [[v, tg + boff] for v, tg in t["arms"]]
         t["else"] = t["else"] + boff
     return t
+
+
+def _reborrow_origin(blocks, bb, local):
+    """x if `local` is a temporary `&mut *x` / `&*x` taken in the calling block for the call (a plain
+    reborrow of another local reference, the usual shape of `self.helper()`), else `local`."""
+    for _ in range(3):
+        found = None
+        for st in bb["st"]:
+            if "lhs" in st and st["lhs"]["l"] == local and not st["lhs"]["p"] and st["rv"]["k"] == "ref":
+                p = st["rv"]["p"]
+                if p["p"] == ["*"]:
+                    found = p["l"]
+        if found is None:
+            return local
+        local = found
+    return local
 
 
 def _closure_origin(blocks, local, depth=6):
@@ -133,8 +158,31 @@ def _closure_origin(blocks, local, depth=6):
     return None
 
 
-def inline_body(crate, body, max_depth=MAX_DEPTH, anchor_pred=None):
-    """Returns (new body, [names of inlined callees])."""
+def _prefix_paths(x, prefix, roots):
+    """Callee blocks copied from another crate name that crate's own items by crate-relative paths; in
+    the caller's crate the same items carry the crate name in front."""
+    KEYS = ("f", "adt", "fn", "path", "res", "resp", "def")
+
+    def fix(sv):
+        if not isinstance(sv, str) or not sv:
+            return sv
+        head = sv.lstrip("<&").split("::", 1)[0].split("<", 1)[0].split(".", 1)[0]
+        if head in roots and not sv.startswith(prefix):
+            if sv.startswith("<"):
+                return "<" + prefix + sv[1:]
+            return prefix + sv
+        return sv
+    if isinstance(x, dict):
+        return {k: (fix(v) if (k in KEYS and isinstance(v, str)) else _prefix_paths(v, prefix, roots))
+                for k, v in x.items()}
+    if isinstance(x, list):
+        return [_prefix_paths(e, prefix, roots) for e in x]
+    return x
+
+
+def inline_body(crate, body, max_depth=MAX_DEPTH, anchor_pred=None, resolver=None, max_blocks=None):
+    """Returns (new body, [names of inlined callees]). `resolver(callee name)` may supply a callee body
+    from elsewhere: it returns None or (body, path prefix, set of crate-local root names to prefix)."""
     mir = body["mir"]
     out = copy.deepcopy(body)
     m = out["mir"]
@@ -144,10 +192,13 @@ def inline_body(crate, body, max_depth=MAX_DEPTH, anchor_pred=None):
         bb.setdefault("stack", ())
     self_name = norm_path(body["path"])
     inlined = []
-    progress = True
-    while progress and len(blocks) < MAX_BLOCKS:
-        progress = False
-        for bi in range(len(blocks)):
+    budget = max_blocks or MAX_BLOCKS
+    bi = -1
+    while True:
+        bi += 1
+        if bi >= len(blocks) or len(blocks) >= budget:
+            break
+        if True:
             bb = blocks[bi]
             if bb["cleanup"]:
                 continue
@@ -170,13 +221,19 @@ def inline_body(crate, body, max_depth=MAX_DEPTH, anchor_pred=None):
                 closure = True
             elif cname and not (anchor_pred or is_anchor)(cname):
                 callee = crate.raw_body(cname)
+            foreign = None
+            if callee is None and resolver is not None and cname:
+                r = resolver(cname)
+                if r is not None:
+                    callee, fprefix, froots = r
+                    foreign = (fprefix, froots)
             if callee is None:
                 continue
             cn = norm_path(callee["path"])
             if cn == self_name or cn in bb["stack"]:
                 continue
             cm = callee["mir"]
-            if len(cm["blocks"]) > MAX_CALLEE_BLOCKS:
+            if len(cm["blocks"]) > (MAX_CALLEE_BLOCKS if max_blocks is None else max_blocks):
                 continue
             loff = len(m["locals"])
             boff = len(blocks)
@@ -185,6 +242,7 @@ def inline_body(crate, body, max_depth=MAX_DEPTH, anchor_pred=None):
                 m.setdefault("names", {})[str(int(k) + loff)] = v
             # argument passing
             new_st = []
+            lmap = {}
             if closure:
                 new_st.append({"lhs": {"l": 1 + loff, "p": []}, "rv": {"k": "use", "o": t["args"][0]}, "ln": 0})
                 if len(t["args"]) > 1:
@@ -196,16 +254,36 @@ def inline_body(crate, body, max_depth=MAX_DEPTH, anchor_pred=None):
                             o = t["args"][1]
                         new_st.append({"lhs": {"l": j + loff, "p": []}, "rv": {"k": "use", "o": o}, "ln": 0})
             else:
+                # a parameter that receives a plain local and is never reassigned in the callee is the
+                # caller's local itself (no copy): `self.helper()` then sees the same `self`
+                assigned = set()
+                for cb in cm["blocks"]:
+                    for st_ in cb["st"]:
+                        if "lhs" in st_ and not st_["lhs"]["p"]:
+                            assigned.add(st_["lhs"]["l"])
+                    tt = cb["term"]
+                    if tt["k"] == "call" and not tt["dest"]["p"]:
+                        assigned.add(tt["dest"]["l"])
                 for j, a in enumerate(t["args"]):
-                    new_st.append({"lhs": {"l": j + 1 + loff, "p": []}, "rv": {"k": "use", "o": a}, "ln": 0})
+                    q = a.get("move") or a.get("copy")
+                    if q is not None and not q["p"] and (j + 1) not in assigned:
+                        lmap[j + 1] = _reborrow_origin(blocks, bb, q["l"])
+                    else:
+                        new_st.append({"lhs": {"l": j + 1 + loff, "p": []}, "rv": {"k": "use", "o": a}, "ln": 0})
             dest = t["dest"]
             target = t.get("t")
+            poff = len(out.get("promoted") or [])
+            if callee.get("promoted"):
+                out.setdefault("promoted", [])
+                out["promoted"] = list(out["promoted"]) + list(callee["promoted"])
             for cb in cm["blocks"]:
-                nb = _renumber(cb, loff, boff)
+                nb = _renumber(cb, loff, boff, poff, lmap)
+                if foreign is not None:
+                    nb = _prefix_paths(nb, foreign[0], foreign[1])
                 nb["term"] = _shift_term(nb["term"], boff)
                 nb["depth"] = bb["depth"] + 1
                 nb["stack"] = bb["stack"] + (cn,)
-                nb["inl"] = cn
+                nb["inl"] = (foreign[0] + cn) if foreign is not None else cn
                 if nb["term"]["k"] == "return":
                     nb["st"].append({"lhs": dest, "rv": {"k": "use", "o": {"move": {"l": loff, "p": []}}}, "ln": 0})
                     if target is not None and target >= 0:
@@ -216,7 +294,5 @@ def inline_body(crate, body, max_depth=MAX_DEPTH, anchor_pred=None):
             bb["st"] = bb["st"] + new_st
             bb["term"] = {"k": "goto", "t": boff, "inlined_call": cn}
             inlined.append(cn)
-            progress = True
-            break
     out["inlined"] = inlined
     return out, inlined
